@@ -1,4 +1,5 @@
 import Postcard.Props.C17
+import Postcard.Model.DynCost
 /-
   Postcard.Props.C18 — "Dynamic codec is total on untrusted bytes, JSON and
   schemas": never panics; decoding allocates memory bounded by a constant
@@ -1609,27 +1610,7 @@ namespace Postcard
 
 /-! ## L. allocation bound on the fragment without zero-width `Seq` elements -/
 
-mutual
-/-- a lower bound on the number of bytes any successful decode under the schema consumes. -/
-def minWidth : Schema → Nat
-  | .unit => 0
-  | .f32 => 4
-  | .f64 => 8
-  | .tuple ts => minWidthList ts
-  | .struct _ d => minWidthData d
-  | _ => 1
-def minWidthList : List Schema → Nat
-  | [] => 0
-  | t :: ts => minWidth t + minWidthList ts
-def minWidthData : SData → Nat
-  | .unit => 0
-  | .newtype t => minWidth t
-  | .tuple ts => minWidthList ts
-  | .struct fs => minWidthFields fs
-def minWidthFields : List SField → Nat
-  | [] => 0
-  | .mk _ t :: fs => minWidth t + minWidthFields fs
-end
+-- `minWidth` (and its list/data/fields siblings) is defined in Model/DynCost.lean
 
 mutual
 /-- `allocFrag s`: every `Seq` element type has positive minimum width (`0 < minWidth t`), and the
